@@ -80,6 +80,12 @@ def eval_pair(case):
         K = implementer(I)(type('K', (), {'m': mkfunc(sig_src(mr, mo, mva, mkw, self=True))}))
         cand = K
         impl, bound, v = K.m, True, verifyClass
+    elif kind == 'staticmethod-class':
+        # a staticmethod of a class that *implements* I, under verifyClass:
+        # instances call it without an instance argument
+        K = implementer(I)(type('K', (), {'m': staticmethod(mkfunc(sig_src(mr, mo, mva, mkw)))}))
+        cand = K
+        impl, bound, v = K.m, False, verifyClass
     elif kind == 'staticmethod-on-provider':
         # a class that *directly provides* I with a staticmethod: verifyObject(I, K)
         K = type('K', (), {'m': staticmethod(mkfunc(sig_src(mr, mo, mva, mkw)))})
@@ -98,7 +104,7 @@ def eval_pair(case):
         return ('unexpected-exception', type(e).__name__), exp
     if exp != got:
         return ('accepts' if got else 'rejects', 'iface(%s)' % sig_src(ir, io, iva, ikw),
-                'impl(%s)' % sig_src(mr, mo, mva, mkw, kind != 'func-attr' and kind != 'staticmethod-on-provider'), kind), exp
+                'impl(%s)' % sig_src(mr, mo, mva, mkw, kind not in ('func-attr', 'staticmethod-on-provider', 'staticmethod-class')), kind), exp
     return None, exp
 
 
@@ -274,7 +280,8 @@ def run(ctx):
     GRID = list(itertools.product(range(mx), range(mx), (0, 1), (0, 1)))
     big = 2 * mx + 5          # more surplus positionals than any implementation in the grid absorbs
     cases = [('pair', (a, b, k, big)) for a in GRID for b in GRID
-             for k in ('func-attr', 'method', 'class', 'staticmethod-on-provider', 'method-noself')]
+             for k in ('func-attr', 'method', 'class', 'staticmethod-on-provider', 'method-noself',
+                       'staticmethod-class')]
     for r in range(0, len(DEFECTS) + 1):
         for flags in itertools.combinations(DEFECTS, r):
             for tentative in (False, True):
